@@ -341,6 +341,42 @@ fn large_strategy(_t: Tier) -> BoxedStrategy<Case> {
         .boxed()
 }
 
+/// a staircase code longer than 2^16 bits (35 000 x 70 600, `realcodes::code(4)`): the encoder must
+/// reproduce the harness's own accumulator encoding of the same message (systematic encoding with an
+/// invertible tail is unique)
+fn wide_cases(_t: Tier) -> Vec<usize> {
+    vec![0, 1, 2]
+}
+
+fn check_wide(which: &usize, p: &mut Probe) -> Check {
+    let rc = super::realcodes::code(4);
+    let h = rc.h();
+    let (n, k) = (rc.n, rc.k);
+    let enc = guarded(|| Encoder::from_h(&h)).map_err(|e| Fail::new("from_h-panic", format!("Encoder::from_h panicked on the {} x {n} staircase matrix: {e}", n - k)))?;
+    let enc = match enc {
+        Ok(e) => e,
+        Err(e) => return Err(Fail::new("rejected-invertible", format!("Encoder::from_h returned {e:?} for a {} x {n} matrix whose last columns are an exact staircase", n - k))),
+    };
+    p.class_if(format!("{enc:?}").contains("Staircase"), "path-staircase");
+    let want = &rc.codewords[*which % rc.codewords.len()];
+    let lay = (*which % LAYOUTS as usize) as u8;
+    let gmsg: Vec<GF2> = to_gf2(&want[..k]).to_vec();
+    let cw = guarded(|| with_layout(&gmsg, GF2::one(), lay, |v| enc.encode(&v))).map_err(|e| Fail::new("encode-panic", format!("encode panicked on the {n}-bit code (message layout {}): {e}", layout_name(lay))))?;
+    let cw = from_gf2(&cw);
+    p.inner += 1;
+    p.nontrivial();
+    p.class("more-than-65536-columns");
+    ensure!(cw.len() == n, "length", "codeword has length {} instead of {n}", cw.len());
+    if let Some(pos) = (0..n).find(|&i| cw[i] != want[i]) {
+        let nbad = (0..n).filter(|&i| cw[i] != want[i]).count();
+        return Err(Fail::new(
+            if pos < k { "not-systematic" } else { "not-codeword" },
+            format!("{n}-bit staircase code, message {which}: the encoder's word differs from the unique systematic codeword in {nbad} positions, first at {pos} (k = {k}, message layout {})", layout_name(lay)),
+        ));
+    }
+    Ok(())
+}
+
 /// fuzz-target body: a byte tape decoded into a matrix (r <= n) and a message seed
 pub fn fuzz_bytes(data: &[u8]) -> Check {
     let (h, salt) = mat_from_bytes(data, 12, true);
@@ -367,6 +403,13 @@ pub fn property() -> Property {
             strategy: large_strategy,
             check,
             health: &[],
+        }),
+        Box::new(EnumSub {
+            name: "encoder-wide",
+            rule: "one staircase code with more than 2^16 columns (35 000 x 70 600, sparse message part of column weight 3): from_h accepts it, encode of the zero message and of two pseudo-random messages (three memory layouts) equals the harness's own accumulator encoding bit for bit",
+            cases: wide_cases,
+            check: check_wide,
+            exhaustive: false,
         })],
         assumptions: vec!["which internal path (staircase / dense) is taken is recorded as a class, not asserted (only C06 requires the linear-time path)".into()],
     }
